@@ -93,6 +93,26 @@ CHECKS = {
    note="Trusts iden3 Poseidon (also used by the tree for hashing) and collision resistance for 'untouched leaves keep their values'; histories longer than the bound and values outside the alphabet are not covered.",
    ref="DESIGN.md C18"),
 }
+
+# additions of the later rounds (appended to the level text / technique of the named checks)
+CC = " Plus a concurrent-callers phase: the checked code is instrumented (go build -overlay) and two threads run it on different values under the cooperative scheduler; every interleaving with <=1 preemption (<=2 when an execution has <=250 scheduling points) is enumerated and each thread's result must equal the sequential one."
+EXTRA_TEXT = {
+ "C01": " The compiled circuit is also judged in a non-initial compiler state ((11,2) after (1,12) was compiled in the same process)." + CC,
+ "C02": " The compiled circuit is also judged in a non-initial compiler state ((11,2) after (1,12) was compiled in the same process)." + CC,
+ "C04": CC + " (Keccak: function-level scheduling points; round-reduced sponge instances against a round-reduced reference, 24 rounds in the thorough tier.)",
+ "C05": CC, "C06": CC, "C08": CC, "C10": CC,
+ "C11": " Short chains at extreme dimensions (insertion depth 32; a padded deletion batch larger than the tree) with valid batches from a sparse reference tree; CLI convert onto an existing output file.",
+ "C12": " Compile histories: a sequence of dimensions compiled in ONE process ((1,12),(11,2),(2,1),(1,2),(12,1),(1,12)) must give, step by step, the digests of fresh-process builds.",
+ "C13": " Goroutines started from init() run as daemon threads of every execution, package-level variables are reset per execution, alternatives are explored cheapest-first (all executions with k preemptions before any with k+1); plus the library-helper pair scenarios (Proof.MarshalJSON/UnmarshalJSON, ComputeInputHash*, parameter JSON) at <=2 preemptions.",
+ "C17": " CLI regeneration histories: extract-circuit over an output path that already holds a longer / equal / shorter model or stale bytes must leave exactly the fresh extraction.",
+ "C19": " Keys files as an interrupted setup leaves them (empty, 4-byte and 8-byte header, last 4 KiB missing) in the prove and verify tables.",
+ "C20": " Availability under load: 1/4/5 (9/17 thorough) requests held inside the /prove handler by a stalled request body, then a scrape of the metrics address that must be answered and report exactly that many in flight.",
+}
+for k, t in EXTRA_TEXT.items():
+    CHECKS[k]["text"] += t
+for k in ["C01", "C02", "C04", "C05", "C06", "C08", "C10"]:
+    CHECKS[k]["technique"] += "; plus stateless DFS over the interleavings of two threads running the instrumented code (preemption bound 1/2) with a differential oracle"
+    CHECKS[k]["engine"] += "+schedmc"
 PENDING = {}
 def main():
     checks = []
@@ -126,7 +146,7 @@ def main():
             {"name": "r1csmc", "path": "harness/r1csmc", "serves_properties": ["C01", "C02", "C03", "C04", "C05", "C06"], "kind_free_text": "explicit-state search over a compiled R1CS: partial wire assignments, forced propagation, adversary choices for unforced/hint wires, independent constraint evaluator"},
             {"name": "groth16-real", "path": "harness/checks", "serves_properties": ["C07", "C10", "C11", "C15"], "kind_free_text": "bounded-exhaustive menus and operation chains on real Groth16 setups, proofs and key files"},
             {"name": "maporder", "path": "harness/maporder", "serves_properties": ["C12", "C17"], "kind_free_text": "go build -overlay of runtime/map.go making the random start of every map iteration an enumerable input; child processes per seed"},
-            {"name": "schedmc", "path": "harness/verifrt", "serves_properties": ["C14", "C13", "C09", "C20"], "kind_free_text": "AST instrumenter + cooperative scheduler + stateless DFS explorer (preemption bounding, state-key pruning) + model of net/http.Server, run on the repository's own server code via go build -overlay"},
+            {"name": "schedmc", "path": "harness/verifrt", "serves_properties": ["C14", "C13", "C09", "C20", "C01", "C02", "C04", "C05", "C06", "C08", "C10"], "kind_free_text": "AST instrumenter + cooperative scheduler + stateless DFS explorer (preemption bounding, state-key pruning) + model of net/http.Server, run on the repository's own server code via go build -overlay"},
             {"name": "e2e", "path": "harness/checks/cli.go", "serves_properties": ["C19", "C08", "C11", "C12", "C15", "C17"], "kind_free_text": "drivers for the real binary built from the working tree (files, pipes, exit status)"},
             {"name": "enginemc", "path": "harness/gad", "serves_properties": ["C01", "C02", "C03", "C04", "C05", "C06"], "kind_free_text": "bounded-exhaustive evaluation of repo gadgets / full Define in gnark's test engine over small whole fields and BN254 alphabets"},
         ],
